@@ -873,12 +873,35 @@ type c10NthCase struct {
 	specs []c10Spec
 	nth   []Range
 	q     c10Query
+	noNth bool // command line only: the option parser dropped --nth (see collapsed)
+}
+
+func (sp *c10Spec) full() bool {
+	return strings.Contains(sp.expr, "..") && (!sp.hasB || sp.b == 1) && (!sp.hasE || sp.e == -1)
+}
+
+// options.go: "If we're not using extended search mode, --nth option becomes irrelevant if it contains the
+// whole range" - and likewise when the list is a single whole range. Then the line is searched as it is
+// (in particular nothing is stripped from its end).
+func (c *c10NthCase) collapsed() bool {
+	if c.q.extended && len(c.specs) != 1 {
+		return false
+	}
+	for i := range c.specs {
+		if c.specs[i].full() {
+			return true
+		}
+	}
+	return false
 }
 
 // searchable spans of a line under --nth: one per expression of the list; the last one loses its
 // trailing delimiter and trailing white space (non-AWK), "to allow suffix match".
 func (c *c10NthCase) spans(l *c10Line, fields []c10Span, out []c10Span) []c10Span {
 	out = out[:0]
+	if c.noNth {
+		return append(out, c10Span{0, len(l.raw)})
+	}
 	for i := range c.specs {
 		sp, ok := c10SelSpan(fields, &c.specs[i])
 		if !ok {
@@ -1060,7 +1083,7 @@ func c10NthCases(r *kit.Run) []*c10NthCase {
 				specs = append(specs, sp)
 			}
 			for _, q := range c10Queries() {
-				out = append(out, &c10NthCase{dl, ls, specs, nth, q})
+				out = append(out, &c10NthCase{dl: dl, list: ls, specs: specs, nth: nth, q: q})
 			}
 		}
 	}
@@ -1085,7 +1108,7 @@ func TestVerif_C10_nth(t *testing.T) {
 		}
 		return
 	}
-	lines := c10MkLines(c10Lines([]rune{'a', 'b', 'é', ' ', ':'}, r.Pick(6, 7)))
+	lines := c10MkLines(c10Lines([]rune{'a', 'b', 'é', ' ', ':'}, r.Pick(5, 7)))
 	r.Param("lines", fmt.Sprint(len(lines)))
 	r.Param("cases", fmt.Sprint(len(cases)))
 	r.Sample(map[string]any{"delimiter": ":", "nth": "2", "query": "^a", "line": "éé:ab", "want_match": true, "want_offset": []int{3, 4}})
@@ -1283,7 +1306,7 @@ func TestVerif_C10_templates(t *testing.T) {
 		}
 		return
 	}
-	lines := c10Lines(c10FieldAlpha, r.Pick(5, 6))
+	lines := c10Lines(c10FieldAlpha, r.Pick(4, 6))
 	r.Param("lines", fmt.Sprint(len(lines)))
 	r.Param("templates", fmt.Sprint(len(tmpls)))
 	r.Sample(map[string]any{"delimiter": ":", "kind": "template", "template": "<{2}|{n}|{-1}> ", "line": "a:é :,", "with_nth": "<é|7|,> ", "accept_nth": "<é|7|,>"})
@@ -1321,6 +1344,12 @@ func (c *c10NthCase) args() []string {
 }
 
 func c10CheckCli(r *kit.Run, fzf string, c *c10NthCase, lines []*c10Line, input string) {
+	if c.collapsed() {
+		cc := *c
+		cc.noNth = true
+		c = &cc
+		r.Count("invocations_where_the_parser_drops_nth")
+	}
 	want := map[string]int{}
 	nwant := 0
 	var fbuf, sbuf []c10Span
